@@ -95,6 +95,7 @@ type linProver struct {
 	budget   int
 	nnDepth  int
 	linDepth int
+	nnHyp    map[*ssa.Phi]bool // φ whose constant starts are all >= 0: "φ >= 0" may serve as induction hypothesis
 	pre      []linFact // contract facts about the parameters (valid everywhere)
 	liftMode bool
 	lifted   []lin
@@ -401,34 +402,7 @@ func (lp *linProver) canon(v ssa.Value) ssa.Value {
 	f := structField(fa.X.Type(), fa.Field)
 	stores := lp.storesToField(f)
 	lp.canonMem[v] = v
-	// calls that may write the field (only relevant when some other function of
-	// the repository stores to it on a shared object)
-	var mayWriteCalls []ssa.Instruction
-	if fieldWrittenElsewhere(lp.p, f, lp.fn) {
-		allInstrs(lp.fn, func(in ssa.Instruction) {
-			ci, ok := in.(ssa.CallInstruction)
-			if !ok {
-				return
-			}
-			if _, isB := ci.Common().Value.(*ssa.Builtin); isB {
-				return
-			}
-			if callee := staticCallee(ci); callee != nil && !lp.p.IsRepoFn(callee) && len(callee.AnonFuncs) == 0 {
-				// library code cannot name the repository's unexported state; callbacks are the
-				// exception and arrive as function-typed arguments
-				hasFn := false
-				for _, a := range ci.Common().Args {
-					if _, isSig := a.Type().Underlying().(*types.Signature); isSig {
-						hasFn = true
-					}
-				}
-				if !hasFn {
-					return
-				}
-			}
-			mayWriteCalls = append(mayWriteCalls, in)
-		})
-	}
+	mayWriteCalls := lp.mayWriteCalls(f)
 	callBetween := func(a, b ssa.Instruction) bool {
 		for _, c := range mayWriteCalls {
 			if between(a, c, b) {
@@ -473,6 +447,91 @@ func (lp *linProver) canon(v ssa.Value) ssa.Value {
 	}
 	lp.loads = append(lp.loads, u)
 	return v
+}
+
+// mayWriteCalls: the calls of lp.fn that may write field f (only relevant when
+// some other function of the repository stores to it on a shared object).
+func (lp *linProver) mayWriteCalls(f *types.Var) []ssa.Instruction {
+	var mayWriteCalls []ssa.Instruction
+	if fieldWrittenElsewhere(lp.p, f, lp.fn) {
+		allInstrs(lp.fn, func(in ssa.Instruction) {
+			ci, ok := in.(ssa.CallInstruction)
+			if !ok {
+				return
+			}
+			if _, isB := ci.Common().Value.(*ssa.Builtin); isB {
+				return
+			}
+			if callee := staticCallee(ci); callee != nil && !lp.p.IsRepoFn(callee) && len(callee.AnonFuncs) == 0 {
+				// library code cannot name the repository's unexported state; callbacks are the
+				// exception and arrive as function-typed arguments
+				hasFn := false
+				for _, a := range ci.Common().Args {
+					if _, isSig := a.Type().Underlying().(*types.Signature); isSig {
+						hasFn = true
+					}
+				}
+				if !hasFn {
+					return
+				}
+			}
+			mayWriteCalls = append(mayWriteCalls, in)
+		})
+	}
+	return mayWriteCalls
+}
+
+// paramFieldLoad: v is a load `p.f` (or a conversion of one) through a pointer
+// parameter p whose value is still the one the field had on entry: no store to f
+// and no call that may write f can precede it inside the function.
+func (lp *linProver) paramFieldLoad(v ssa.Value) (*ssa.Parameter, *types.Var, bool) {
+	u, ok := v.(*ssa.UnOp)
+	if !ok || u.Op != token.MUL {
+		return nil, nil, false
+	}
+	fa, ok := u.X.(*ssa.FieldAddr)
+	if !ok {
+		return nil, nil, false
+	}
+	prm, ok := fa.X.(*ssa.Parameter)
+	if !ok || prm.Parent() != lp.fn {
+		return nil, nil, false
+	}
+	f := structField(fa.X.Type(), fa.Field)
+	if f == nil {
+		return nil, nil, false
+	}
+	for _, st := range lp.storesToField(f) {
+		if reachableAfter(st, u) {
+			return nil, nil, false
+		}
+	}
+	for _, c := range lp.mayWriteCalls(f) {
+		if reachableAfter(c, u) {
+			return nil, nil, false
+		}
+	}
+	return prm, f, true
+}
+
+// isLiftAtom: an atom a precondition may mention: a parameter atom, or the
+// entry value (or entry length) of a field reached through a pointer parameter.
+func (lp *linProver) isLiftAtom(a ssa.Value) bool {
+	if isParamAtom(a) {
+		return true
+	}
+	switch x := a.(type) {
+	case *ssa.UnOp:
+		if !isIntType(x.Type()) {
+			return false
+		}
+		_, _, ok := lp.paramFieldLoad(x)
+		return ok
+	case *lenMarker:
+		_, _, ok := lp.paramFieldLoad(x.x)
+		return ok
+	}
+	return false
 }
 
 // ---------------------------------------------------------------------------
@@ -981,6 +1040,18 @@ func (lp *linProver) atomFacts(a ssa.Value, cx *linCtx) []linFact {
 		// constant start value (range loops start at -1)
 		nn := true
 		lower := int64(math.MaxInt64)
+		if lp.nnHyp == nil {
+			lp.nnHyp = map[*ssa.Phi]bool{}
+		}
+		if _, seen := lp.nnHyp[x]; !seen {
+			hyp := true
+			for _, e := range x.Edges {
+				if k, ok := constInt(e); ok && k < 0 {
+					hyp = false
+				}
+			}
+			lp.nnHyp[x] = hyp
+		}
 		for _, e := range x.Edges {
 			if k, ok := constInt(e); ok {
 				if k < lower {
@@ -1027,8 +1098,32 @@ func (lp *linProver) nonNegNoPhi(v ssa.Value, ph *ssa.Phi, cx *linCtx) bool {
 		return true
 	}
 	r := resolve(v)
+	if r == ssa.Value(ph) && lp.nnHyp[ph] {
+		return true // induction hypothesis (every constant start of ph is >= 0)
+	}
 	if c, ok := r.(*ssa.Call); ok {
 		if b, ok := c.Call.Value.(*ssa.Builtin); ok && (b.Name() == "len" || b.Name() == "copy" || b.Name() == "cap") {
+			return true
+		}
+		if b, ok := c.Call.Value.(*ssa.Builtin); ok && (b.Name() == "min" || b.Name() == "max") && len(c.Call.Args) > 0 {
+			// min of non-negatives; max with one non-negative
+			for _, a := range c.Call.Args {
+				nn := lp.nonNegNoPhi(a, ph, cx)
+				if nn && b.Name() == "max" {
+					return true
+				}
+				if !nn && b.Name() == "min" {
+					return false
+				}
+			}
+			return b.Name() == "min"
+		}
+	}
+	if bo, ok := r.(*ssa.BinOp); ok && bo.Op == token.ADD && lp.nnHyp[ph] {
+		if resolve(bo.X) == ssa.Value(ph) && lp.incNonNeg(bo, bo.Y, ph, cx) {
+			return true
+		}
+		if resolve(bo.Y) == ssa.Value(ph) && lp.incNonNeg(bo, bo.X, ph, cx) {
 			return true
 		}
 	}
@@ -1404,7 +1499,7 @@ func (lp *linProver) search(res lin, facts []linFact, depth int) bool {
 		// precondition (to be established by every caller)
 		all := true
 		for a := range res.c {
-			if !isParamAtom(a) {
+			if !lp.isLiftAtom(a) {
 				all = false
 			}
 		}
@@ -1437,12 +1532,12 @@ func (lp *linProver) search(res lin, facts []linFact, depth int) bool {
 			}
 		}
 		if n == 0 {
-			if lp.liftMode && isParamAtom(a) {
+			if lp.liftMode && lp.isLiftAtom(a) {
 				continue // may remain in the lifted precondition
 			}
 			return false // atom cannot be eliminated
 		}
-		if lp.liftMode && isParamAtom(a) {
+		if lp.liftMode && lp.isLiftAtom(a) {
 			n += 1000 // eliminate the function's own values first
 		}
 		if best < 0 || n < best {
